@@ -249,6 +249,14 @@ class FloatLiteral(Literal[float]):
     def __init__(self, token: TokenT, value: float):
         super().__init__(token, value)
 
+    def __str__(self) -> str:
+        rv = repr(self.value)
+        if "." not in rv:
+            # `1e+16` would be read as an integer.
+            mantissa, _, exponent = rv.partition("e")
+            return f"{mantissa}.0e{exponent}"
+        return rv
+
     def __eq__(self, other: object) -> bool:
         return isinstance(other, FloatLiteral) and self.value == other.value
 
